@@ -3,7 +3,7 @@
    `_run` task never writes (the suspension futures and the main thread's error slot).
    Shared by Proofs/RE_C10.v and Proofs/RE_C11.v.  All plans, devices, states. *)
 From Coq Require Import List String ZArith Bool Arith Lia.
-From BV Require Import Engine.RE Proofs.RE_Small.
+From BV Require Import Engine.RE Proofs.RE_Small Proofs.RE_Inv.
 Import ListNotations.
 (* file-local implicit arguments for the model's functions (the model file itself is untouched) *)
 Local Arguments upd {P D}.
@@ -478,8 +478,8 @@ Qed.
 Lemma drive_aux fuel (s : st) c os s' o : drive presume plan_of dev fuel s c os = (s', o) -> aux s' = aux s.
 Proof.
   revert s c os; induction fuel as [|fuel IH]; intros s c os H.
-  - rewrite drive_0 in H. invc H. reflexivity.
-  - rewrite drive_dstep in H. pose proof (dstep_aux s c _ eq_refl) as Hd.
+  - rewrite RE_Small.drive_0 in H. invc H. reflexivity.
+  - rewrite RE_Small.drive_dstep in H. pose proof (dstep_aux s c _ eq_refl) as Hd.
     destruct (dstep s c) as [[[s1 c1] o1]|[s1 o1]].
     + apply IH in H. congruence.
     + invc H. exact Hd.
@@ -580,6 +580,19 @@ Proof.
   match goal with |- context [fold_left ?f ?l ?a] => destruct (fold_left f l a) as [s3 o3] end.
   unfold set_state. cbv zeta.
   match goal with |- context [allowed ?a Idle] => destruct (allowed a Idle) end; intros H; invc H; eexists; reflexivity.
+Qed.
+
+
+(* the bookkeeping at the start of message processing (seen objects, message cache) leaves the control fields alone *)
+Lemma process_pre_same (s : st) (m : msg) :
+  let s1 := match mobj m with Some d => set_seen s (insert_sorted d (seen s)) | None => s end in
+  let s2 := match cache s1 with
+            | Some l => if rewindable s1 && cacheable (mcmd m) then set_cache s1 (Some (l ++ [m])) else s1
+            | None => s1
+            end in
+  RE_Inv.same P D s s2 /\ exc_slot s2 = exc_slot s /\ bundlers s2 = bundlers s.
+Proof.
+  cbv zeta. unfold RE_Inv.same. repeat bmg; cbn; repeat split; reflexivity.
 Qed.
 
 End Shape.
